@@ -126,6 +126,8 @@ func Translate(q string) (string, error) {
 	q = reCastInt.ReplaceAllString(q, "$1")
 	q = reCastJSON.ReplaceAllString(q, "$1")
 	q = reContains.ReplaceAllString(q, "jsonb_contains($1, $2)")
+	// Postgres: LIKE is case sensitive (the connection sets case_sensitive_like) and its default escape character is the backslash
+	q = regexp.MustCompile(`\bLIKE\s+(\?\d+)`).ReplaceAllString(q, `LIKE $1 ESCAPE '\'`)
 	if m := reDistinct.FindStringSubmatch(strings.TrimSpace(q)); m != nil {
 		key, cols, from, order, limit := m[1], m[2], m[3], m[4], m[5]
 		// Postgres: the first row of each key group in ORDER BY order; then ORDER BY, then LIMIT
